@@ -5,7 +5,8 @@
 //   -DH_HEADER='<ffsm2/machine.hpp>' | '<ffsm2/machine_dev.hpp>'
 //   -DH_N=<states> -DH_HEAD=0|1 -DH_MANUAL=0|1 -DH_LIMIT=<n> -DH_CAP=<n>
 //   -DH_PAYLOAD=0 (none) |1 (1-byte struct) |2 (int) |3 (double) |4 (3-byte struct) |5 (alignas(16) 24-byte struct)
-//   -DH_CTX=0 (value) |1 (reference) |2 (pointer)
+//   -DH_CTX=0 (value) |1 (reference) |2 (pointer) |3 (no ContextT<> at all: EmptyContext; one instance only)
+//   -DH_CONSTCB=1: the state classes declare their callbacks const (all but preReact/react/postReact, which the library only accepts non-const when logging is compiled in)
 //   -DH_INJ_ROOT=<k> -DH_INJ_STATE=<k> -DH_DEFROOT=<mask> -DH_DEFSTATE=<mask>
 //   plus the library's own FFSM2_ENABLE_* switches.
 #ifndef H_N
@@ -46,6 +47,14 @@
 #endif
 #ifndef H_SDATA
 #define H_SDATA 0      // 1: every state object carries a data member (a callback counter) that the obs line reports: copies must carry it along
+#endif
+#ifndef H_CONSTCB
+#define H_CONSTCB 0    // 1: every callback of the state classes (not of the injected bases) is a const member function
+#endif
+#if H_CONSTCB
+#define CQ const
+#else
+#define CQ
 #endif
 #ifndef H_HEADER
 #define H_HEADER <ffsm2/machine.hpp>
@@ -153,11 +162,15 @@ struct Ev { int v; };
 using CtxT = Ctx;
 #elif H_CTX == 1
 using CtxT = Ctx&;
-#else
+#elif H_CTX == 2
 using CtxT = Ctx*;
 #endif
 static const Ctx& ctxRef(const Ctx& c) { return c; }
 static const Ctx& ctxRef(const Ctx* c) { return *c; }
+#if H_CTX == 3
+static const Ctx g_ctx0{};                                                   // there is no context object: every callback belongs to instance 0
+static const Ctx& ctxRef(const ffsm2::EmptyContext&) { return g_ctx0; }
+#endif
 
 #if H_MANUAL
 #define CFG_MANUAL ::ManualActivation
@@ -174,7 +187,11 @@ static const Ctx& ctxRef(const Ctx* c) { return *c; }
 #else
 #define CFG_CAP
 #endif
+#if H_CTX == 3
+using Config = ffsm2::Config CFG_MANUAL ::SubstitutionLimitN<H_LIMIT> CFG_CAP CFG_PAYLOAD;
+#else
 using Config = ffsm2::Config::ContextT<CtxT> CFG_MANUAL ::SubstitutionLimitN<H_LIMIT> CFG_CAP CFG_PAYLOAD;
+#endif
 using M = ffsm2::MachineT<Config>;
 
 template <int I> struct St;
@@ -291,6 +308,68 @@ template <typename C> static std::string view(C& c, KPlan)  { return viewCommon(
 template <typename C> static std::string view(C& c, KFull)  { return view(c, KPlan{}); }
 template <typename C> static std::string view(C& c, KGuard) { return viewCommon(c) + " cur=" + tstr(c.currentTransition()) + " pend=" + tstr(c.pendingTransition()) + planField(c); }
 
+
+// ---- cross-checks of API forms no script drives directly (DESIGN.md, "API surface"): every accessor / overload / iterator flavour that must
+// agree with the one the trace records is compared with it here; a disagreement appends " APIX=<property>:<what>" to the line (the model never
+// prints such a token, so it is both a divergence and - for the check of that property - a concrete failing input) ----
+#if H_HISTORY
+static const Transition* instPrev(int inst);       // &instance.previousTransition(), or nullptr while the instance is still being constructed
+#endif
+template <typename C> static void apixCommon(const C& c, std::string& x) {
+#if H_HISTORY
+	{ const Transition* ip = instPrev(ctxRef(c.context()).inst); if (ip && &c.previousTransitions() != ip) x += " APIX=C11:control-previousTransitions"; }
+#endif
+	if (&c._() != &c.context()) x += " APIX=C06:underscore-accessor";
+	const Transition& r = c.request();
+	if (!(r == r) || (r != r)) x += " APIX=C07:transition-self-equality";
+	const Transition none{};
+	if ((r == none) == (r != none)) x += " APIX=C07:transition-eq-vs-neq";
+	if (c.template stateId<St<0>>() != 0 || c.template stateId<St<H_N - 1>>() != H_N - 1) x += " APIX=C14:control-stateId-of-type";
+}
+template <typename C> static void apixMutable(C& c, std::string& x) {
+	if (&c._() != &c.context()) x += " APIX=C06:underscore-accessor-mutable";
+	const C& cc = c;
+	if (&cc.context() != &c.context() || &cc._() != &c._()) x += " APIX=C06:const-context-accessor";
+}
+#if H_PLANS
+template <typename TPlanLike> static std::string pstrEnd(TPlanLike& plan) {          // the same walk, but reading through operator-> and naming end()
+	std::ostringstream o; o << "["; bool first = true; int guard = 0;
+	auto e = plan.end(); (void) e;
+	for (auto it = plan.begin(); it && guard < 600; ++it, ++guard) { if (!first) o << ","; first = false; o << int(it->origin) << ">" << int(it->destination) << ":";
+#if H_PAYLOAD
+		o << payloadStr(it->payload());
+#else
+		o << "-";
+#endif
+	}
+	if (guard >= 600) o << ",LOOP";
+	o << "]"; return o.str();
+}
+template <typename C> static void apixPlan(C& c, std::string& x) {
+	auto plan = c.plan();                                  // PlanT / PayloadPlanT through the non-const control
+	const std::string viaIt = pstr(plan);
+	const auto& cplanT = plan;                             // const PlanT&: begin() const / end() const, CIterator
+	std::string viaC; { std::ostringstream o; o << "["; bool first = true; int guard = 0; auto e = cplanT.end(); (void) e;
+		for (auto it = cplanT.begin(); it && guard < 600; ++it, ++guard) { if (!first) o << ","; first = false; o << taskStr(*it); if (it->origin != (*it).origin) o << "ARROW"; }
+		o << "]"; viaC = o.str(); }
+	const C& cc = c; auto cplan = cc.plan();               // CPlanT through the const control
+	const std::string viaCPlan = pstrEnd(cplan);
+	const std::string viaArrow = pstrEnd(plan);
+	if (viaC != viaIt) x += " APIX=C10:const-iterator[" + viaC + "]";
+	if (viaCPlan != viaIt) x += " APIX=C10:const-control-plan[" + viaCPlan + "]";
+	if (viaArrow != viaIt) x += " APIX=C10:iterator-arrow[" + viaArrow + "]";
+	if (static_cast<bool>(cplan) != (viaIt != "[]")) x += " APIX=C10:cplan-bool";
+}
+#endif
+template <typename C> static std::string apix(C& c, KConst) { std::string x; apixCommon(c, x); return x; }
+template <typename C> static std::string apix(C& c, KPlan) { std::string x; apixCommon(c, x); apixMutable(c, x);
+#if H_PLANS
+	apixPlan(c, x);
+#endif
+	return x; }
+template <typename C> static std::string apix(C& c, KFull) { return apix(c, KPlan{}); }
+template <typename C> static std::string apix(C& c, KGuard) { return apix(c, KPlan{}); }
+
 template <typename C> static int pendDest(C&, KConst) { return -1; }
 template <typename C> static int pendDest(C&, KPlan) { return -1; }
 template <typename C> static int pendDest(C&, KFull) { return -1; }
@@ -394,6 +473,7 @@ static std::string recStr(int rec) { return rec < 0 ? "own" : "I" + std::to_stri
 
 template <typename C> static int instOf(const C& c) { return ctxRef(c.context()).inst; }
 
+static bool g_state_side_bad = false;      // FSM::State::stateId<St<I>>() (the helper states inherit) disagreed with the declaration index
 template <typename C, typename K> static void on(int who, int rec, int meth, C& c, K k, const void* ev = nullptr) {
 	Script& s = g_script;
 	const int inst = instOf(c);
@@ -401,10 +481,16 @@ template <typename C, typename K> static void on(int who, int rec, int meth, C& 
 	s.trace += head.str(); s.trace += view(c, k);
 	// object identity: the machine's own context; the caller's own event object
 	// (for a value context the address is learnt from the first callback and checked against the instance after the call)
+#if H_CTX == 3
+	const bool ctxOk = true;
+#else
 	if (!g_ctx_addr[inst]) g_ctx_addr[inst] = &ctxRef(c.context());
 	const bool ctxOk = &ctxRef(c.context()) == g_ctx_addr[inst];
+#endif
 	s.trace += ctxOk ? " ctx=1" : " ctx=0";
 	if (meth >= M_preReact && meth <= M_query) s.trace += (ev == g_event_addr) ? " ev=1" : " ev=0";
+	s.trace += apix(c, k);
+	if (g_state_side_bad) { s.trace += " APIX=C14:state-side-stateId"; g_state_side_bad = false; }
 	s.trace += "\n";
 	// a machine that never stops calling back (a broken substitution limit) must not eat the sandbox's memory
 	if (s.trace.size() > (24u << 20)) { fputs(s.trace.substr(0, 1u << 20).c_str(), stdout); fputs("\nrunaway: more than 24 MB of trace inside one API call\n", stderr); fflush(stdout); _Exit(97); }
@@ -431,18 +517,18 @@ template <typename C, typename K> static void on(int who, int rec, int meth, C& 
 // ---- states ----
 #define DEF(mask, bit) (((mask) >> (bit)) & 1)
 #define CALLBACKS(MASK, WHO, REC) \
-	void entryGuard_(GuardControl& c) { on(WHO, REC, M_entryGuard, c, KGuard{}); } \
-	void enter_(PlanControl& c) { on(WHO, REC, M_enter, c, KPlan{}); } \
-	void reenter_(PlanControl& c) { on(WHO, REC, M_reenter, c, KPlan{}); } \
-	void preUpdate_(FullControl& c) { on(WHO, REC, M_preUpdate, c, KFull{}); } \
-	void update_(FullControl& c) { on(WHO, REC, M_update, c, KFull{}); } \
-	void postUpdate_(FullControl& c) { on(WHO, REC, M_postUpdate, c, KFull{}); } \
-	void preReact_(const Ev& e, FullControl& c) { on(WHO, REC, M_preReact, c, KFull{}, &e); } \
-	void react_(const Ev& e, FullControl& c) { on(WHO, REC, M_react, c, KFull{}, &e); } \
-	void postReact_(const Ev& e, FullControl& c) { on(WHO, REC, M_postReact, c, KFull{}, &e); } \
+	void entryGuard_(GuardControl& c) const { on(WHO, REC, M_entryGuard, c, KGuard{}); } \
+	void enter_(PlanControl& c) const { on(WHO, REC, M_enter, c, KPlan{}); } \
+	void reenter_(PlanControl& c) const { on(WHO, REC, M_reenter, c, KPlan{}); } \
+	void preUpdate_(FullControl& c) const { on(WHO, REC, M_preUpdate, c, KFull{}); } \
+	void update_(FullControl& c) const { on(WHO, REC, M_update, c, KFull{}); } \
+	void postUpdate_(FullControl& c) const { on(WHO, REC, M_postUpdate, c, KFull{}); } \
+	void preReact_(const Ev& e, FullControl& c) const { on(WHO, REC, M_preReact, c, KFull{}, &e); } \
+	void react_(const Ev& e, FullControl& c) const { on(WHO, REC, M_react, c, KFull{}, &e); } \
+	void postReact_(const Ev& e, FullControl& c) const { on(WHO, REC, M_postReact, c, KFull{}, &e); } \
 	void query_(Ev& e, ConstControl& c) const { on(WHO, REC, M_query, c, KConst{}, &e); } \
-	void exitGuard_(GuardControl& c) { on(WHO, REC, M_exitGuard, c, KGuard{}); } \
-	void exit_(PlanControl& c) { on(WHO, REC, M_exit, c, KPlan{}); }
+	void exitGuard_(GuardControl& c) const { on(WHO, REC, M_exitGuard, c, KGuard{}); } \
+	void exit_(PlanControl& c) const { on(WHO, REC, M_exit, c, KPlan{}); }
 
 // an injected base defines every callback
 template <int W, int J> struct InjT : FSM::State {
@@ -465,72 +551,73 @@ template <int W, int... Js> struct BaseOf<W, Seq<Js...>> { using Type = FSM::Sta
 template <int W> struct BaseOf<W, Seq<>> { using Type = FSM::State; };
 
 #if H_SDATA
-#define BUMP ++hits;
+#define BUMP ++hits; selfId();
 #else
-#define BUMP
+#define BUMP selfId();
 #endif
 template <int I> struct St : BaseOf<I, MakeSeq<H_INJ_STATE>::Type>::Type {
 	using Base = typename BaseOf<I, MakeSeq<H_INJ_STATE>::Type>::Type;
 	mutable unsigned hits = 0;
+	void selfId() const { if (Base::template stateId<St<I>>() != I || Base::template stateId<St<0>>() != 0) g_state_side_bad = true; }
 	using typename Base::GuardControl; using typename Base::PlanControl; using typename Base::FullControl; using typename Base::ConstControl;
 	CALLBACKS(H_DEFSTATE, I, -1)
 #if DEF(H_DEFSTATE, 0)
-	void entryGuard(GuardControl& c) { BUMP entryGuard_(c); }
+	void entryGuard(GuardControl& c) CQ { BUMP entryGuard_(c); }
 #endif
 #if DEF(H_DEFSTATE, 1)
-	void enter(PlanControl& c) { BUMP enter_(c); }
+	void enter(PlanControl& c) CQ { BUMP enter_(c); }
 #endif
 #if DEF(H_DEFSTATE, 2)
-	void reenter(PlanControl& c) { BUMP reenter_(c); }
+	void reenter(PlanControl& c) CQ { BUMP reenter_(c); }
 #endif
 #if DEF(H_DEFSTATE, 3)
-	void preUpdate(FullControl& c) { BUMP preUpdate_(c); }
+	void preUpdate(FullControl& c) CQ { BUMP preUpdate_(c); }
 #endif
 #if DEF(H_DEFSTATE, 4)
-	void update(FullControl& c) { BUMP update_(c); }
+	void update(FullControl& c) CQ { BUMP update_(c); }
 #endif
 #if DEF(H_DEFSTATE, 5)
-	void postUpdate(FullControl& c) { BUMP postUpdate_(c); }
+	void postUpdate(FullControl& c) CQ { BUMP postUpdate_(c); }
 #endif
 #if DEF(H_DEFSTATE, 6)
-	void preReact(const Ev& e, FullControl& c) { preReact_(e, c); }
+	void preReact(const Ev& e, FullControl& c) { BUMP preReact_(e, c); }
 #endif
 #if DEF(H_DEFSTATE, 7)
-	void react(const Ev& e, FullControl& c) { react_(e, c); }
+	void react(const Ev& e, FullControl& c) { BUMP react_(e, c); }
 #endif
 #if DEF(H_DEFSTATE, 8)
-	void postReact(const Ev& e, FullControl& c) { postReact_(e, c); }
+	void postReact(const Ev& e, FullControl& c) { BUMP postReact_(e, c); }
 #endif
 #if DEF(H_DEFSTATE, 9)
 	void query(Ev& e, ConstControl& c) const { query_(e, c); }
 #endif
 #if DEF(H_DEFSTATE, 10)
-	void exitGuard(GuardControl& c) { BUMP exitGuard_(c); }
+	void exitGuard(GuardControl& c) CQ { BUMP exitGuard_(c); }
 #endif
 #if DEF(H_DEFSTATE, 11)
-	void exit(PlanControl& c) { BUMP exit_(c); }
+	void exit(PlanControl& c) CQ { BUMP exit_(c); }
 #endif
 };
 
 struct RootS : BaseOf<-1, MakeSeq<H_INJ_ROOT>::Type>::Type {
 	CALLBACKS(H_DEFROOT, -1, -1)
 #if DEF(H_DEFROOT, 0)
-	void entryGuard(GuardControl& c) { entryGuard_(c); }
+	void entryGuard(GuardControl& c) CQ { entryGuard_(c); }
 #endif
 #if DEF(H_DEFROOT, 1)
-	void enter(PlanControl& c) { enter_(c); }
+	void enter(PlanControl& c) CQ { enter_(c); }
 #endif
 #if DEF(H_DEFROOT, 2)
-	void reenter(PlanControl& c) { reenter_(c); }
+	void reenter(PlanControl& c) CQ { reenter_(c); }
 #endif
 #if DEF(H_DEFROOT, 3)
-	void preUpdate(FullControl& c) { preUpdate_(c); }
+	void preUpdate(FullControl& c) CQ { preUpdate_(c); }
 #endif
 #if DEF(H_DEFROOT, 4)
-	void update(FullControl& c) { update_(c); }
+	void update(FullControl& c) CQ { update_(c); }
 #endif
 #if DEF(H_DEFROOT, 5)
-	void postUpdate(FullControl& c) { postUpdate_(c); }
+	void postUpdate(FullControl& c) CQ { postUpdate_(c); }
 #endif
 #if DEF(H_DEFROOT, 6)
 	void preReact(const Ev& e, FullControl& c) { preReact_(e, c); }
@@ -545,17 +632,17 @@ struct RootS : BaseOf<-1, MakeSeq<H_INJ_ROOT>::Type>::Type {
 	void query(Ev& e, ConstControl& c) const { query_(e, c); }
 #endif
 #if DEF(H_DEFROOT, 10)
-	void exitGuard(GuardControl& c) { exitGuard_(c); }
+	void exitGuard(GuardControl& c) CQ { exitGuard_(c); }
 #endif
 #if DEF(H_DEFROOT, 11)
-	void exit(PlanControl& c) { exit_(c); }
+	void exit(PlanControl& c) CQ { exit_(c); }
 #endif
 #if H_PLANS
 #if DEF(H_DEFROOT, 12)
-	void planSucceeded(FullControl& c) { on(-1, -1, M_planSucceeded, c, KFull{}); }
+	void planSucceeded(FullControl& c) CQ { on(-1, -1, M_planSucceeded, c, KFull{}); }
 #endif
 #if DEF(H_DEFROOT, 13)
-	void planFailed(FullControl& c) { on(-1, -1, M_planFailed, c, KFull{}); }
+	void planFailed(FullControl& c) CQ { on(-1, -1, M_planFailed, c, KFull{}); }
 #endif
 #endif
 };
@@ -596,6 +683,12 @@ static std::string stateHits(const FSM::Instance& m) { return stateHitsImpl(m, M
 #endif
 static void obs(int inst, const FSM::Instance& m) {
 	std::ostringstream o; o << "obs " << inst << " active=" << int(m.activeStateId());
+	std::string x;
+#if H_CTX != 3
+	{ FSM::Instance& mm = const_cast<FSM::Instance&>(m); if (&ctxRef(m.context()) != &ctxRef(mm.context())) x += " APIX=C06:instance-const-context"; }
+#endif
+	if (FSM::Instance::template stateId<St<0>>() != 0 || FSM::Instance::template stateId<St<H_N - 1>>() != H_N - 1) x += " APIX=C14:instance-stateId-of-type";
+	if (m.isActive(ffsm2::StateID(0)) != m.template isActive<St<0>>() || m.isActive(ffsm2::StateID(H_N - 1)) != m.template isActive<St<H_N - 1>>()) x += " APIX=C06:isActive-id-vs-type";
 #if H_MANUAL
 	o << " on=" << (m.isActive() ? 1 : 0);
 #else
@@ -631,6 +724,7 @@ static void obs(int inst, const FSM::Instance& m) {
 #if H_SDATA
 	o << " cnts=" << stateHits(m);
 #endif
+	o << x;
 	g_script.trace += o.str() + "\n";
 }
 
@@ -654,6 +748,10 @@ static void parseActs(std::istringstream& in, std::vector<Act>& acts) {
 static FSM::Instance* g_inst[4] = {nullptr, nullptr, nullptr, nullptr};
 alignas(64) static unsigned char g_mem[4][sizeof(FSM::Instance) + 64];
 
+#if H_HISTORY
+static const Transition* instPrev(int inst) { return g_inst[inst] ? &g_inst[inst]->previousTransition() : nullptr; }
+#endif
+
 static FSM::Instance* make(int i, bool withLogger, int fill, const FSM::Instance* from) {
 	memset(g_mem[i], fill, sizeof g_mem[i]);
 	memset(g_script.counts[i], 0, sizeof g_script.counts[i]);
@@ -665,12 +763,25 @@ static FSM::Instance* make(int i, bool withLogger, int fill, const FSM::Instance
 #endif
 	(void) withLogger;
 	if (from) {
-		FSM::Instance* m = new (g_mem[i]) FSM::Instance{*from};
+		// odd fill bytes take the move constructor (the source stays alive and usable: nothing in an instance owns anything), even ones the copy constructor
+#if H_CTX == 1
+		FSM::Instance* m = new (g_mem[i]) FSM::Instance{*from};      // (a reference context cannot be moved: the library's move constructor does not compile for it)
+#else
+		FSM::Instance* m = (fill & 1) ? new (g_mem[i]) FSM::Instance{static_cast<FSM::Instance&&>(*const_cast<FSM::Instance*>(from))}
+									  : new (g_mem[i]) FSM::Instance{*from};
+#endif
 #if H_CTX == 0
 		m->context().inst = i;
 #endif
 		return m;
 	}
+#if H_CTX == 3
+#if H_LOG
+	return new (g_mem[i]) FSM::Instance{withLogger ? &g_logger : nullptr};
+#else
+	return new (g_mem[i]) FSM::Instance{};
+#endif
+#endif
 #if H_CTX == 0
 	Ctx c; c.inst = i;
 	// a value context can be handed over as an lvalue or as an rvalue: two different constructors of the instance (odd fill bytes take the rvalue one)
@@ -692,7 +803,18 @@ static FSM::Instance* make(int i, bool withLogger, int fill, const FSM::Instance
 #else
 	return new (g_mem[i]) FSM::Instance{g_ctx[i]};
 #endif
-#else
+#elif H_CTX == 2
+#if H_MANUAL
+	// a manually activated machine can be built without a context and be given one later (odd fill bytes): the default argument and setContext()
+	if (fill & 1) {
+		FSM::Instance* m = new (g_mem[i]) FSM::Instance{};
+#if H_LOG
+		m->attachLogger(withLogger ? &g_logger : nullptr);
+#endif
+		m->setContext(&g_ctx[i]);
+		return m;
+	}
+#endif
 #if H_LOG
 	return new (g_mem[i]) FSM::Instance{&g_ctx[i], withLogger ? &g_logger : nullptr};
 #else
@@ -801,7 +923,9 @@ int main() {
 			g_in_call = false;
 #endif
 			script.trace += "api " + op + " " + std::to_string(i) + rest + " end ret=" + ret + "\n";
+#if H_CTX != 3
 			if (g_inst[i] && g_ctx_addr[i] && g_ctx_addr[i] != &ctxRef(g_inst[i]->context())) script.trace += "ctxfail " + std::to_string(i) + "\n";
+#endif
 			if (g_inst[i]) obs(i, *g_inst[i]);
 		}
 	}
